@@ -121,9 +121,10 @@ Definition from_file (d : str) (pos : Z) : result (option (member * Z)) :=
 
 (** * ArFile.__collect_members
 
-    The [while True] loop gets explicit fuel (one unit per member); a
-    well-formed archive needs at most one iteration per 60 bytes
-    (Proofs.collect_fuel_enough). *)
+    The [while True] loop gets explicit fuel (one unit per member); an
+    archive written by ArSpec.build needs one iteration per member plus one, and
+    every member takes at least 60 bytes (Proofs.collect_build,
+    Proofs.collect_members_build: the fuel [S (length d)] suffices). *)
 Fixpoint collect (fuel : nat) (k : fkind) (d : str) (pos : Z) : result (list member * Z) :=
   match fuel with
   | O => Err OutOfFuel
